@@ -37,60 +37,7 @@ func cursorParamIndex(sig *types.Signature) int {
 func runC19(c *eng.Ctx) {
 	P := c.P
 	// (1) CURSOR
-	nLoopCalls := 0
-	for _, pkg := range []string{"weed/filer", "weed/server"} {
-		for _, fn := range P.SrcFuncs(pkg) {
-			ord := map[string]int{}
-			for _, b := range fn.Blocks {
-				for _, in := range b.Instrs {
-					call, ok := in.(*ssa.Call)
-					if !ok {
-						continue
-					}
-					name := eng.Callee(call)
-					if !(strings.Contains(name, "ListDirectoryEntries") || strings.Contains(name, "ListDirectoryPrefixedEntries") || strings.Contains(name, "doListDirectoryEntries") ||
-						strings.Contains(name, "doListPatternMatchedEntries") || strings.Contains(name, "doListValidEntries")) {
-						continue
-					}
-					sig := call.Call.Signature()
-					ci := cursorParamIndex(sig)
-					if ci < 0 {
-						continue
-					}
-					if !eng.InCycle(b) {
-						continue
-					}
-					// a loop that lists a *different* directory per iteration is not a pagination loop
-					dirVaries := false
-					for i := 0; i < sig.Params().Len(); i++ {
-						if strings.HasSuffix(sig.Params().At(i).Type().String(), "util.FullPath") {
-							if a := eng.Arg(call, i); a != nil && eng.LoopVariant(a, b) {
-								dirVaries = true
-							}
-						}
-					}
-					if dirVaries {
-						continue
-					}
-					short := name[strings.LastIndex(name, ".")+1:]
-					ord[short]++
-					nLoopCalls++
-					c.Touch(fn)
-					arg := eng.Arg(call, ci)
-					ok2 := arg != nil && eng.LoopVariant(arg, b)
-					c.Ob("CURSOR-pagination", fmt.Sprintf("%s %s#%d", eng.FuncName(fn), short, ord[short]), ok2, call.Pos(),
-						"a listing call repeated in a loop must advance its start name between iterations (otherwise the same page is read again)")
-					// the page after the first continues behind the last name already delivered: the inclusive flag that
-					// arrives over the loop's back edge is false
-					if ci+1 < sig.Params().Len() && sig.Params().At(ci+1).Type().String() == "bool" {
-						okInc, why := continuationExclusive(eng.Arg(call, ci+1), b)
-						c.Ob("CURSOR-pagination", fmt.Sprintf("%s %s#%d continuation-exclusive", eng.FuncName(fn), short, ord[short]), okInc, call.Pos(),
-							"a continuation page starts after the last name already delivered (the inclusive flag is false on every iteration but the first)"+why)
-					}
-				}
-			}
-		}
-	}
+	nLoopCalls := cursorAdvances(c, "CURSOR-pagination", nil)
 	// the generic prefix filter hands the caller's (start name, inclusive) pair to the store for the first page: when it
 	// replaces the start name by something else, the caller's inclusive flag no longer describes it
 	if fn := c.NeedFunc("weed/filer", "(*FilerStoreWrapper).prefixFilterEntries"); fn != nil {
@@ -522,4 +469,69 @@ func continuationExclusive(v ssa.Value, at *ssa.BasicBlock) (bool, string) {
 		return false, ": the value arriving over the back edge is not the constant false"
 	}
 	return rec(v, false)
+}
+
+// cursorAdvances: every call of a paged listing function that sits inside a loop passes a start name that changes
+// between iterations, and an inclusive flag that is false on every iteration but the first. only (optional) restricts
+// the functions looked at by name. Returns the number of in-loop listing calls found.
+func cursorAdvances(c *eng.Ctx, rule string, only map[string]bool) int {
+	P := c.P
+	nLoopCalls := 0
+	for _, pkg := range []string{"weed/filer", "weed/server"} {
+		for _, fn := range P.SrcFuncs(pkg) {
+			if only != nil && !only[fn.Name()] {
+				continue
+			}
+			ord := map[string]int{}
+			for _, b := range fn.Blocks {
+				for _, in := range b.Instrs {
+					call, ok := in.(*ssa.Call)
+					if !ok {
+						continue
+					}
+					name := eng.Callee(call)
+					if !(strings.Contains(name, "ListDirectoryEntries") || strings.Contains(name, "ListDirectoryPrefixedEntries") || strings.Contains(name, "doListDirectoryEntries") ||
+						strings.Contains(name, "doListPatternMatchedEntries") || strings.Contains(name, "doListValidEntries")) {
+						continue
+					}
+					sig := call.Call.Signature()
+					ci := cursorParamIndex(sig)
+					if ci < 0 {
+						continue
+					}
+					if !eng.InCycle(b) {
+						continue
+					}
+					// a loop that lists a *different* directory per iteration is not a pagination loop
+					dirVaries := false
+					for i := 0; i < sig.Params().Len(); i++ {
+						if strings.HasSuffix(sig.Params().At(i).Type().String(), "util.FullPath") {
+							if a := eng.Arg(call, i); a != nil && eng.LoopVariant(a, b) {
+								dirVaries = true
+							}
+						}
+					}
+					if dirVaries {
+						continue
+					}
+					short := name[strings.LastIndex(name, ".")+1:]
+					ord[short]++
+					nLoopCalls++
+					c.Touch(fn)
+					arg := eng.Arg(call, ci)
+					ok2 := arg != nil && eng.LoopVariant(arg, b)
+					c.Ob(rule, fmt.Sprintf("%s %s#%d", eng.FuncName(fn), short, ord[short]), ok2, call.Pos(),
+						"a listing call repeated in a loop must advance its start name between iterations (otherwise the same page is read again)")
+					// the page after the first continues behind the last name already delivered: the inclusive flag that
+					// arrives over the loop's back edge is false
+					if ci+1 < sig.Params().Len() && sig.Params().At(ci+1).Type().String() == "bool" {
+						okInc, why := continuationExclusive(eng.Arg(call, ci+1), b)
+						c.Ob(rule, fmt.Sprintf("%s %s#%d continuation-exclusive", eng.FuncName(fn), short, ord[short]), okInc, call.Pos(),
+							"a continuation page starts after the last name already delivered (the inclusive flag is false on every iteration but the first)"+why)
+					}
+				}
+			}
+		}
+	}
+	return nLoopCalls
 }
